@@ -530,6 +530,8 @@ class CFGrid2DTopology(CFGridTopology):
 
         # Discard cell coordinates where the cell is bound by nan on both sides.
         # This can occur when the grid tracks a river which might be only one cell wide.
+        # The two coordinates need not be stored in the same dimension order
+        coordinate = coordinate.transpose(self.y_dimension, self.x_dimension)
         coordinate_values = coordinate.values.copy()
         nan_coordinates = numpy.isnan(coordinate_values)
         j_pad = numpy.pad(nan_coordinates, ((1, 1), (0, 0)), constant_values=False)
